@@ -464,6 +464,12 @@ sprDone:
 			if err != nil {
 				continue
 			}
+			// the daemon's reader decides signatures and timestamps here; the form and the amounts are
+			// decided by the lab's own strict reader (only on the points the statements list)
+			if sv := StrictFAT2([]byte(fe.Content), func(t string) bool { return fat2.StringToTicker(t) != fat2.PTickerInvalid }); !sv.OK && sv.Judged {
+				x.Notes = append(x.Notes, "entry "+en.Hash.String()+" is not canonical ("+sv.Reason+"): inert")
+				continue
+			}
 			if m.Seen[en.Hash] {
 				continue // any repeat of an entry hash is inert
 			}
